@@ -28,8 +28,8 @@ CHECKS: dict[str, tuple[str, str, str]] = {
         'history in default mode equals "consecutive distinct visited sites" for every minimal residence (default_eq_spec, '
         'jumpsOfHistory_default through the C03 table theorem); for ARBITRARY event lists (inner-site mode included) a larger '
         'minimal residence yields a sub-multiset of jumps (minres_monotone). Tie: exhaustive histories x residences, exact incl. order.',
-        'clause "every strict-mode jump is a default jump and matches the states" is checked on the implementation for every case '
-        '(exhaustive bounded + random) but its Lean theorem is not proved yet: correspondence only; trusted: pandas groupby/iterrows order',
+        'second clause proved as strict_subset_default (GProofs/C04Strict.lean): for inner histories with inner_t in {-1, site_t} every reported '
+        'jump is a default jump (origin, destination, start time) and matches the recorded states; trusted: pandas groupby/iterrows order',
         '4/C04',
     ),
     'C05': (
@@ -61,6 +61,46 @@ CHECKS: dict[str, tuple[str, str, str]] = {
         '4/C19',
     ),
 }
+
+CHECKS.update({
+    'C01': (
+        'Theorems (GProofs/C01.lean, over Q, no bound on frames/atoms): positions in [0,1) in every state and = input mod 1; displacements '
+        'are minimum-image steps (|d| <= 1/2, congruent to the consecutive difference); first frame + running sum reproduces every frame '
+        'mod 1 (running_sum_reproduces); whole-lattice shifts of any coordinate in any frame change neither displacements nor cumulative '
+        'displacements, distances, positions (shift_invariance, NoTie); abstract-rounding theorem for the cell face + kernel-checked Float '
+        'witness. Tie: exact comparison of every array on dyadic inputs, pool lattices incl. re-oriented triclinic; metamorphic shifted runs; face stream.',
+        'IEEE rounding is not quantified over: face-adjacent floats are covered by wrap_fl_range (any monotone rounding), a kernel Float witness and the '
+        'adversarial face stream only; NoTie (no exact half-cell step) is a domain precondition with a counterexample theorem; '
+        'defect D1 (np.mod returns 1.0) repaired by fix commit f345c3b; trusted: pymatgen to_displacements/to_positions as modelled',
+        '4/C01',
+    ),
+    'C06': (
+        'Theorems (GProofs/C06.lean): the code\'s S1 (insert/flip/cumsum recursion) - 2*S2 equals the definition (average over time origins of '
+        '|r(k+m)-r(k)|^2) for every track and lag (msdAlgo_eq_def), zero at lag 0, v^T(MM^T)v = |vM|^2 for every cell. Tie: MSD, distances^2, '
+        'tracer diffusivity (d=1,2,3) vs exact rational values on multi-crossing walks in triclinic cells, rel 1e-9.',
+        'the zero-padded FFT autocorrelation is replaced by its mathematical meaning (direct sums) and validated per case to 1e-9; sqrt and float matrix products by tolerance',
+        '4/C06',
+    ),
+    'C15': (
+        'Theorems (GProofs/C15.lean): a state machine of the trajectory container (positions/displacements storage, base positions) — every '
+        'mode switch keeps the state well formed and keeps the positions it denotes; by induction NO sequence of read-only queries changes '
+        'what a later query returns (history_preserves_abs, reads_stable); filter/slice/extend hold exactly the selected atoms/frames in '
+        'either storage mode; Python slice index semantics. Tie: random op sequences on sources and derived objects, every array exact.',
+        'constant-cell trajectories; an empty selection is refused by pymatgen (expected); split frame ranges are covered by C19 theorems; '
+        'trusted: pymatgen __getitem__/extend/constructor as modelled',
+        '4/C15',
+    ),
+    'C20': (
+        'Theorems (GProofs/C20.lean) about a model of weakref.ref + functools.lru_cache with reusable addresses: for EVERY sequence of '
+        'creations, calls and drops (address reuse, eviction included) each call returns f(object called, args) (memo_transparent), a hit is '
+        'always an entry of the calling object, size <= maxsize, values without back-references never keep a dropped object alive '
+        '(no_leak); leak_witness for D14. Tie: the real id() of every object is fed to the model and its hit/miss/size trace + liveness are '
+        'compared op by op with cache_info() and weakref callbacks; real Transitions/Jumps/TrajectoryMetrics objects.',
+        'known finding D14 (cached Collective stores its Jumps) reported as KNOWN-FINDING; CPython weakref/lru semantics are modelled, not '
+        'verified (validated by the op-by-op trace comparison); objects assumed immutable between calls',
+        '4/C20',
+    ),
+})
 
 NOT_APPLICABLE: list[dict] = []
 
